@@ -1,1 +1,7 @@
--- stub: no theorems of C07 yet
+import WmModel.Props.C07
+#print axioms Wm.GcSub.never_panics
+#print axioms Wm.GcSub.close_flags_consistent
+#print axioms Wm.GcSub.holder_can_leave_when_closing
+#print axioms Wm.GcSub.close_progress
+#print axioms Wm.GcSub.outchan_closed_at_most_once
+#print axioms Wm.GcSub.closed_is_final
